@@ -270,7 +270,8 @@ Section Finder.
     forall fuel st T sw, P st -> outer c fuel st all = OTable T sw ->
     exists st0 st', P st0 /\ changed st0 = false
       /\ inner c (S (List.length all) * S (S (List.length all))) st0 (rev all) [] false = FOk st'
-      /\ changed st' = false /\ tbl st' = T /\ swallowed st' = sw /\ P st'.
+      /\ changed st' = false /\ tbl st' = T /\ swallowed st' = sw /\ P st'
+      /\ final_check c T all = None.
   Proof.
     intros P all Hreset Hstep. induction fuel as [|f IH]; intros st T sw HP; cbn [outer]; [discriminate|].
     fold (reset st).
@@ -282,7 +283,7 @@ Section Finder.
       - intros x []. }
     destruct (changed st') eqn:Ec.
     - intro H. eapply IH; eassumption.
-    - destruct (final_check c (tbl st') all); [discriminate|]. intros [= <- <-].
+    - destruct (final_check c (tbl st') all) eqn:Ef; [discriminate|]. intros [= <- <-].
       exists (reset st), st'. repeat split; auto.
   Qed.
 
@@ -329,7 +330,7 @@ Section Finder.
     intros fuel st all T Hg Hwf H.
     pose (P := fun s : tstate => good c s /\ tle (tbl st) (tbl s)).
     destruct (outer_last P all) with (fuel := fuel) (st := st) (T := T) (sw := false)
-      as [st0 [st' [[Hg0 Hle0] [Hc0 [Ei [Hc' [HT [Hs' [Hg' Hle']]]]]]]]]; try assumption.
+      as [st0 [st' [[Hg0 Hle0] [Hc0 [Ei [Hc' [HT [Hs' [[Hg' Hle'] _]]]]]]]]]; try assumption.
     - intros s [A B]. split; assumption.
     - intros s it s' Hin [A B] Hps. split.
       + eapply process_good; try eassumption. apply Hwf; assumption.
@@ -350,7 +351,7 @@ Section Finder.
     intros fuel st all L T sw Hg Hwf HcL Hle Hcl H.
     pose (P := fun s : tstate => good c s /\ tle (tbl s) L).
     destruct (outer_last P all) with (fuel := fuel) (st := st) (T := T) (sw := sw)
-      as [st0 [st' [_ [_ [_ [_ [HT [_ [_ Hle']]]]]]]]]; try assumption.
+      as [st0 [st' [_ [_ [_ [_ [HT [_ [[_ Hle'] _]]]]]]]]]; try assumption.
     - intros s [A B]. split; assumption.
     - intros s it s' Hin [A B] Hps. split.
       + eapply process_good; try eassumption. apply Hwf; assumption.
@@ -359,6 +360,70 @@ Section Finder.
     - split; assumption.
     - subst T. assumption.
   Qed.
+
+  (* ---------------------------------------------------------------- registering loop variables up front *)
+
+  Definition start (st : tstate) (all : list qitem) : res tstate :=
+    if c_loops_prepass c then prepass c st all else Ok st.
+
+  Lemma prepass_good : forall l st st', good c st -> prepass c st l = Ok st' -> good c st'.
+  Proof.
+    induction l as [|it r IH]; intros st st' Hg; cbn.
+    - intros [= <-]; assumption.
+    - destruct (set_loops c st (fst it) (b_loops (snd it))) as [st1|e] eqn:E; [|discriminate].
+      apply IH. eapply set_loops_good; eassumption.
+  Qed.
+
+  Lemma prepass_grows : forall l st st', good c st -> prepass c st l = Ok st' -> tle (tbl st) (tbl st').
+  Proof.
+    induction l as [|it r IH]; intros st st' Hg; cbn.
+    - intros [= <-]; apply tle_refl.
+    - destruct (set_loops c st (fst it) (b_loops (snd it))) as [st1|e] eqn:E; [|discriminate].
+      intro H. eapply tle_trans; [eapply set_loops_grows; eassumption|].
+      eapply IH; [|exact H]. eapply set_loops_good; eassumption.
+  Qed.
+
+  Lemma prepass_below : forall l st L, tle (tbl st) L -> (forall it, In it l -> stmt_closed L it) ->
+    exists st', prepass c st l = Ok st' /\ tle (tbl st') L /\ swallowed st' = swallowed st.
+  Proof.
+    induction l as [|it r IH]; intros st L Hle Hcl; cbn.
+    - eexists; split; [reflexivity|split; [assumption|reflexivity]].
+    - destruct (set_loops_below (b_loops (snd it)) st (fst it) L Hle) as [st1 [E1 [Hle1 Hs1]]].
+      { apply (Hcl it). left; reflexivity. }
+      rewrite E1. destruct (IH st1 L Hle1) as [st' [E' [Hle' Hs']]].
+      + intros x Hx. apply Hcl. right; assumption.
+      + exists st'. split; [assumption|split; [assumption|congruence]].
+  Qed.
+
+  Lemma start_good : forall l st st', good c st -> start st l = Ok st' -> good c st'.
+  Proof.
+    unfold start. intros l st st' Hg. destruct (c_loops_prepass c).
+    - apply prepass_good; assumption.
+    - intros [= <-]; assumption.
+  Qed.
+
+  Lemma start_grows : forall l st st', good c st -> start st l = Ok st' -> tle (tbl st) (tbl st').
+  Proof.
+    unfold start. intros l st st' Hg. destruct (c_loops_prepass c).
+    - apply prepass_grows; assumption.
+    - intros [= <-]; apply tle_refl.
+  Qed.
+
+  Lemma start_below : forall l st L, tle (tbl st) L -> (forall it, In it l -> stmt_closed L it) ->
+    exists st', start st l = Ok st' /\ tle (tbl st') L /\ swallowed st' = swallowed st.
+  Proof.
+    unfold start. intros l st L Hle Hcl. destruct (c_loops_prepass c).
+    - apply prepass_below; assumption.
+    - exists st. auto.
+  Qed.
+
+  Lemma run_queue_unfold : forall fuel forced all,
+    run_queue c fuel forced all =
+    match set_forced c (init_state c) forced with
+    | Err e => OErr e
+    | Ok st => match start st all with Err e => OErr e | Ok st' => outer c fuel st' all end
+    end.
+  Proof. reflexivity. Qed.
 
   Theorem order_independent_partial : forall fuel fuel' forced all all' T T',
     Permutation all all' ->
@@ -369,18 +434,30 @@ Section Finder.
     table_equiv T T'.
   Proof.
     intros fuel fuel' forced all all' T T' Hperm Hwf Hforced H1 H2.
-    unfold run_queue in *.
+    rewrite run_queue_unfold in H1, H2.
     destruct (set_forced c (init_state c) forced) as [stf|e] eqn:Ef; [|discriminate].
     assert (Hgf : good c stf) by (eapply set_forced_good; [apply init_good|exact Hforced|exact Ef]).
     assert (Hwf' : forall it, In it all' -> wf_item it).
     { intros it Hin. apply Hwf. eapply Permutation_in; [apply Permutation_sym; exact Hperm|exact Hin]. }
-    destruct (run_closed _ _ _ _ Hgf Hwf H1) as [Hc1 [Hle1 Hcl1]].
-    destruct (run_closed _ _ _ _ Hgf Hwf' H2) as [Hc2 [Hle2 Hcl2]].
+    destruct (start stf all) as [st1|e] eqn:E1; [|discriminate].
+    destruct (start stf all') as [st2|e] eqn:E2; [|discriminate].
+    assert (Hg1 : good c st1) by exact (start_good _ _ _ Hgf E1).
+    assert (Hg2 : good c st2) by exact (start_good _ _ _ Hgf E2).
+    destruct (run_closed _ _ _ _ Hg1 Hwf H1) as [Hc1 [Hle1 Hcl1]].
+    destruct (run_closed _ _ _ _ Hg2 Hwf' H2) as [Hc2 [Hle2 Hcl2]].
+    assert (Hf1 : tle (tbl stf) T) by exact (tle_trans _ _ _ (start_grows _ _ _ Hgf E1) Hle1).
+    assert (Hf2 : tle (tbl stf) T') by exact (tle_trans _ _ _ (start_grows _ _ _ Hgf E2) Hle2).
+    assert (Hcl1' : forall it, In it all' -> stmt_closed T it).
+    { intros it Hin. apply Hcl1. eapply Permutation_in; [apply Permutation_sym; exact Hperm|exact Hin]. }
+    assert (Hcl2' : forall it, In it all -> stmt_closed T' it).
+    { intros it Hin. apply Hcl2. eapply Permutation_in; eassumption. }
     apply tle_antisym.
-    - eapply run_below with (st := stf) (all := all); try eassumption.
-      intros it Hin. apply Hcl2. eapply Permutation_in; eassumption.
-    - eapply run_below with (st := stf) (all := all'); try eassumption.
-      intros it Hin. apply Hcl1. eapply Permutation_in; [apply Permutation_sym; exact Hperm|exact Hin].
+    - destruct (start_below all stf T' Hf2 Hcl2') as [s [Es [Hles _]]].
+      rewrite E1 in Es. injection Es as <-.
+      eapply run_below with (st := st1) (all := all); eassumption.
+    - destruct (start_below all' stf T Hf1 Hcl1') as [s [Es [Hles _]]].
+      rewrite E2 in Es. injection Es as <-.
+      eapply run_below with (st := st2) (all := all'); eassumption.
   Qed.
 
 End Finder.
